@@ -65,27 +65,53 @@ Proof.
 Qed.
 Print Assumptions C16_f_eq_call.
 
-(* ... over call HISTORIES on one object: whatever sequence of obj(x, T) (array passed by reference or
-   copied), obj.f(x, T, *obj.args), in-place rewrites of the caller's composition arrays and in-place rewrites of
-   arrays that earlier calls RETURNED came before, the object behaves like the state-free specification spec_hist:
-   every answer is the function gamma_of of the CURRENT content of the array and T (so obj(x, T) =
-   obj.f(x, T, *args) at every step, no hidden state, no sharing of returned arrays), the caller's arrays change
-   only by the caller's own writes, and a returned array changes only when the caller writes to it *)
+(* ... over call HISTORIES on one object: whatever sequence of obj(x, T) (array passed by reference or copied),
+   obj.f(x, T, *obj.args), obj.activity_coefficients(v, T) (the object form on the sub-system), in-place rewrites of the
+   caller's composition arrays and in-place rewrites of arrays that earlier calls RETURNED came before, the object
+   behaves like the state-free specification spec_hist: every answer is the function gamma_of / act_spec of the CURRENT
+   content of the array and T (so obj(x, T) = obj.f(x, T, *args) at every step, no hidden state, no sharing of
+   returned arrays); the caller's arrays change only by the caller's own writes; a returned array changes only when
+   the caller writes to it; the object's interaction table is never changed and its _group_psis buffer stays
+   "written through the mask only".  Starting point: the state __new__ leaves (buffer of zeros = clean) *)
 Theorem C16_f_eq_call_history : forall A (K : KOps A) arrays results ops,
-  (forall a, let S := spec_hist (gamma_UNIFAC K) a (arrays, results) ops in
-             let R := run_hist (gamma_UNIFAC K) (mkH arrays results a) ops in
-             snd R = snd S /\ h_arrays (fst R) = fst (fst S) /\ h_results (fst R) = snd (fst S)) /\
-  (forall a, let S := spec_hist (gamma_modified_UNIFAC K) a (arrays, results) ops in
-             let R := run_hist (gamma_modified_UNIFAC K) (mkH arrays results a) ops in
-             snd R = snd S /\ h_arrays (fst R) = fst (fst S) /\ h_results (fst R) = snd (fst S)).
-Proof. intros A K arrays results ops. split; intros a; apply (wrapper_history K). Qed.
+  (forall a, (forall T0, same_shape (psi_UNIFAC K T0 (a_inter a)) (a_mask a)) -> clean_buffer K (a_mask a) (a_gpsis a) ->
+     let S := spec_hist (gamma_UNIFAC K) (act_spec K (psi_UNIFAC K) (loggammacs_UNIFAC K) (group_activity_coefficients K))
+                        a (arrays, results) ops in
+     let R := run_hist (gamma_UNIFAC K) (activity_coefficients_UNIFAC K) (mkH arrays results a) ops in
+     snd R = snd S /\ h_arrays (fst R) = fst (fst S) /\ h_results (fst R) = snd (fst S) /\
+     a_inter (h_args (fst R)) = a_inter a /\ clean_buffer K (a_mask a) (a_gpsis (h_args (fst R)))) /\
+  (forall a, (forall T0, same_shape (psi_modified_UNIFAC K T0 (a_inter a)) (a_mask a)) ->
+     clean_buffer K (a_mask a) (a_gpsis a) ->
+     let S := spec_hist (gamma_modified_UNIFAC K)
+                        (act_spec K (psi_modified_UNIFAC K) (loggammacs_modified_UNIFAC K) (group_activity_coefficients K))
+                        a (arrays, results) ops in
+     let R := run_hist (gamma_modified_UNIFAC K) (activity_coefficients_modified K) (mkH arrays results a) ops in
+     snd R = snd S /\ h_arrays (fst R) = fst (fst S) /\ h_results (fst R) = snd (fst S) /\
+     a_inter (h_args (fst R)) = a_inter a /\ clean_buffer K (a_mask a) (a_gpsis (h_args (fst R)))).
+Proof.
+  intros A K arrays results ops. split; intros a Hs Hc.
+  - exact (wrapper_history K ScatterInside (psi_UNIFAC K) (psi_UNIFAC_effect K) (loggammacs_UNIFAC K)
+             (group_activity_coefficients K) a arrays results ops Hs Hc).
+  - exact (wrapper_history K ScatterInside (psi_modified_UNIFAC K) (psi_modified_UNIFAC_effect K)
+             (loggammacs_modified_UNIFAC K) (group_activity_coefficients K) a arrays results ops Hs Hc).
+Qed.
 Print Assumptions C16_f_eq_call_history.
 
+(* the object form agrees with the functional form: activity_coefficients on the normalised sub-composition is, entry
+   for entry, what the wrapper scatters to the members with groups (same kernel, same masked psis) *)
+Theorem C16_object_form_is_kernel : forall A (K : KOps A) a v T,
+  act_spec K (psi_modified_UNIFAC K) (loggammacs_modified_UNIFAC K) (group_activity_coefficients K) a v T =
+  (let psis := psi_modified_UNIFAC K T (a_inter a) in
+   group_activity_coefficients K v (a_chemgroups a) (loggammacs_modified_UNIFAC K (a_qs a) (a_rs a) v) (a_Qs a) psis
+     (a_cQfs a) (fill_group_psis K psis (a_mask a))).
+Proof. reflexivity. Qed.
+Print Assumptions C16_object_form_is_kernel.
+
 (* in the specification the composition arrays are touched by HSet only *)
-Theorem C16_history_arrays_only_caller_writes : forall A I (f : wfun (A:=A) (I:=I)) a ops arrays results,
-  fst (fst (spec_hist f a (arrays, results) ops)) =
+Theorem C16_history_arrays_only_caller_writes : forall A I (f : wfun (A:=A) (I:=I)) act a ops arrays results,
+  fst (fst (spec_hist f act a (arrays, results) ops)) =
   fold_left (fun arr o => match o with HSet r v => upd arr r v | _ => arr end) ops arrays.
-Proof. intros A I f a ops arrays results. apply spec_hist_arrays. Qed.
+Proof. intros A I f act a ops arrays results. apply spec_hist_arrays. Qed.
 Print Assumptions C16_history_arrays_only_caller_writes.
 
 (* ideal object (IdealActivityCoefficients and the fallback of __new__): over every history of calls, .f calls
@@ -404,3 +430,13 @@ Example C16_nonvacuous_wrapper :
               (some_mat [[1; 0]; [0; 1]]) [0%nat; 2%nat] = Ok w /\
             all_some (w_gamma w) = true /\ nth 1 (w_gamma w) None = Some 1.
 Proof. eexists. split; [vm_compute; reflexivity|]. split; vm_compute; reflexivity. Qed.
+
+(* the starting point of C16_f_eq_call_history is met by the buffer of zeros __new__ allocates *)
+Example C16_nonvacuous_clean_buffer :
+  clean_buffer KQx [[true; false]; [false; true]] [[0; 0]; [0; 0]] /\
+  same_shape (psi_UNIFAC KQx 350 [[0; 300]; [200; 0]]) [[true; false]; [false; true]].
+Proof.
+  split.
+  - exists [[0; 0]; [0; 0]]. split; [repeat constructor|reflexivity].
+  - vm_compute. repeat constructor.
+Qed.
